@@ -38,6 +38,7 @@ import Driver.TemplateReuse
 import Driver.CRLIssuer
 import Driver.PubHex
 import Driver.KexGlue
+import Driver.SM2Hist
 import Driver.ResumeGraft
 open Gmsm
 
@@ -130,6 +131,9 @@ def dispatch (toks : List String) : String :=
     | some r => r
     | none =>
     match Driver.resumeAuthDispatch toks with
+    | some r => r
+    | none =>
+    match Driver.sm2histDispatch toks with
     | some r => r
     | none =>
     match toks with
